@@ -243,7 +243,10 @@ class Ppar(EventPattern):
                 # // Requeue stream.
                 queue.add(now + float(outevent('delta')), stream)
                 nexttime = queue.peek()[0]
-                outevent['delta'] = nexttime - now
+                if isinstance(outevent('delta'), evt.Rest):
+                    outevent['delta'] = evt.Rest(nexttime - now)  # Still a rest.
+                else:
+                    outevent['delta'] = nexttime - now
                 inevent = yield outevent
                 now = nexttime
             except stm.StopStream:  # next
